@@ -33,7 +33,7 @@ from openjd.model import (  # noqa: E402
 )
 
 _jt, _et = C6._jt, C6._et
-_SRC_CHARS = "".join(sorted({c for p in (__file__, jc.__file__) for c in Path(p).read_text() if ord(c) > 127} | {chr(c) for c in jc.DEC_SPACE if c > 127}))
+_SRC_CHARS = "".join(sorted({c for p in (__file__, jc.__file__) for c in Path(p).read_text() if ord(c) > 127} | {chr(c) for c in jc.DEC_SPACE if c > 127} | set(jc.UNI_DIGITS)))
 
 PATH_POOL = ["", "a", "a/b", "a//b", "./a", "a/.", "a/", "a/./b", "/a//b", "//a", "///a", "/", "//", ".", "..", "a/../b", "../up", "./", "/.", "a/b/", "/abs/p", "rel/p",
              " ", "a b", "é/ü", "\x00", "a\nb", "~", "~/x", "C:\\x", "a\\b", "x" * 1024, "x" * 1025, "/" + "x" * 1023, "./" + "x" * 1023, "{{Param.X}}"]
@@ -137,7 +137,7 @@ class C06Full(core.PropBase):
     chunk_size = 25
     theorem_for_mismatch = "C06_full_exn / C06_full_pdef_total; create_job_docs (decode + pdef_of_mval + merge + preprocess + symbol table + instantiate + validate) = implementation correspondence"
     assumptions = [
-        "values supplied for INT / FLOAT parameters stay in the numeral domain of Numerals.v (no non-ASCII decimal digit, exponent text <= 3 digits); others are judged by the implementation alone",
+        "values supplied for INT / FLOAT parameters stay in the numeral domain of Numerals.v (every Unicode decimal digit is read as Python reads it; exponent text <= 3 digits); others are judged by the implementation alone",
         "a negative-zero Decimal default is outside NumPrint.v's domain (such templates are skipped)",
         "a template the DECODE model declares outside its domain (RuntimeError of the structural pydantic model) is judged by the implementation alone and counted; "
         "for create_job itself no such escape exists (C06_full_exn): any other reply of the model than a Job / DecodeValidationError is reported as a disagreement",
@@ -252,11 +252,6 @@ class C06Full(core.PropBase):
         for p in all_defs:
             if p.type.value in ("INT", "FLOAT") and p.name in case["vals"] and not jc.small_exponent(case["vals"][p.name]):
                 dom = "numeral-domain"
-        # any value (of any type: it may be substituted into a numeric range) or default with a non-ASCII decimal digit
-        # is outside Numerals.v's domain: Python's int() / Decimal() read those digits, the model's numerals do not
-        texts = list(case["vals"].values()) + [str(p.default) for p in all_defs if getattr(p, "default", None) is not None]
-        if any(ord(ch) > 127 and ch.isdecimal() for v in texts for ch in str(v)):
-            dom = "numeral-domain"
         try:
             out["defs"] = [[jc.def_sx(p) for p in (t.parameterDefinitions or [])] for t in [jt] + ets]
         except Exception as e:  # noqa: BLE001
